@@ -77,6 +77,12 @@ def generate(rng, n, k):
             while len(ops) < 6:
                 op = OM.GEN[kind](rng)
                 ops.append(op)
+            if kind == "modules":
+                # one module added in two categories, each call bringing several RPMs: the list order is the callers' order
+                v, a, uid = rng.choice(OM.VARIANTS), rng.choice(OM.ARCHES_OK), rng.choice(OM.UIDS[:4])
+                rp = ["pkg%d-0:1-%d.x86_64" % (j, j) for j in range(9)]
+                ops.append([v, a, uid, "module-tag-1", "md.yaml", "binary", rp[:5]])
+                ops.append([v, a, uid, "module-tag-1", "md-debug.yaml", "debug", rp[3:]])
             cell = (lambda op: (op[0], op[1], op[2])) if kind != "extra" else (lambda op: (op[0], op[1]))
             if kind == "rpms":
                 # entries are keyed by CANONICAL names ('.rpm' and directories stripped): two spellings of one source package are
